@@ -7,7 +7,12 @@ COQ_FILES = ["Common/Bytes.v", "Common/Corr.v", "Model/Utf8.v", "Model/Lexer.v",
              "Model/FastScan.v", "Proofs/FastScanDecls.v", "Proofs/FastScanLex.v", "Proofs/FastScan.v", "Props/C25.v"]
 PROPS = "Props/C25.v"
 THEOREMS = ["C25_scan_tokens_of_decls", "C25_string_decode_agree", "C25_fast_lex_agree", "C25_fast_scan_accepted",
-            "C25_fast_scan_total", "C25_fast_string_total"]
+            "C25_fast_scan_total", "C25_fast_string_total",
+            "C25_string_decode_agree_unsigned", "C25_fast_scan_accepted_unsigned", "C25_fast_scan_total_unsigned"]
+# Which instance of the model the working tree is compared with.  "signed": the tree as it is (strconv.ParseInt on the digits
+# of hex and unicode escapes, a sign is accepted); "unsigned": after fixes/C25-fastscan-signed-escapes-optional.diff (ParseUint).
+MODEL = os.environ.get("VERIF_C25_MODEL", "signed")
+CHK = {"signed": "(fs_chk hex_signed)", "unsigned": "(fs_chk hex_unsigned)"}
 AXIOMS_OK = []
 TRUSTED = ["hand-written Gallina mirror of parser/fastscan/lexer.go (Lex, readNumber, readIdentifier, readStringLiteral incl. "
            "strconv.ParseInt on the escape digits, comments, BOM) and of the token loop of fastscan.Scan (Model/FastScan.v)",
@@ -524,10 +529,10 @@ def run(ctx):
                 "out with random white space and comments between all tokens; the same with one malformed escape; "
                 "internal/testdata/*.proto and byte/slice/statement mutants of those and of generated files. "
                 "distinct = distinct text; non-trivial = the text contains an import or package keyword")
-    ins = [{"data": t.hex(), "tokens": (len(t) < 300 or i % 3 == 0), "onebyte": (i % 4 == 3)} for i, (_, t) in enumerate(cases)]
+    ins = [{"data": t.hex(), "tokens": (len(t) < 200 or i % ctx.budget(6, 2) == 0), "onebyte": (i % 4 == 3)} for i, (_, t) in enumerate(cases)]
     outs = ctx.impl("fastscan", ins)
     terms, meta = [], []
-    n_accepted = n_rejected = 0
+    n_accepted = n_rejected = n_silent = 0
     found = []        # (key, what, replay): emitted smallest source first, so that the replay of a key is its smallest failing input
 
     def violation(key, what, replay):
@@ -573,10 +578,15 @@ def run(ctx):
         else:
             n_rejected += 1
             ctx.count((klass, t), (b"import" in t or b"package" in t), "rejected-by-full-parser:" + klass)
+            if not s["errs"] and not s.get("io"):
+                n_silent += 1
         terms.append(coq_case(t, o))
         meta.append((replay, o))
     for _, _, key, what, replay in sorted(found, key=lambda x: (x[0], x[1])):
         ctx.violation(key, what, replay)
+    ctx.notes.append("%d of the %d inputs the full parser rejects are scanned without any error by fastscan.Scan (allowed: the scanner is "
+                     "documented as lenient; e.g. a signed hex escape such as \\x+5 is decoded to the byte 5 by its strconv.ParseInt)" % (n_silent, n_rejected))
+    ctx.extra["model_variant"] = MODEL
     ctx.extra["accepted_by_full_parser"] = n_accepted
     ctx.extra["rejected_by_full_parser(not judged, scanner must not panic)"] = n_rejected
     for k in (1, len(CORPUS) + 3, len(CORPUS) + 4):
@@ -588,7 +598,7 @@ def run(ctx):
     nshards = max(1, min(NCPU, n // 20)) if ctx.tier != "thorough" else max(1, n // 400)
     order = sorted(range(n), key=lambda i: i % nshards)
     size = (n + nshards - 1) // nshards
-    mism, err = coq_eval_mismatches("cases_C25", HEADER, [terms[i] for i in order], "fs_chk", shard_size=max(size, 1))
+    mism, err = coq_eval_mismatches("cases_C25", HEADER, [terms[i] for i in order], CHK[MODEL], shard_size=max(size, 1))
     if err:
         raise RuntimeError(err)
     for k in mism:
